@@ -100,3 +100,17 @@ def sessionO (cfg : Config) (ns : Bytes) (now : Nat) :
       (done, n + 1, a', b')
 
 end Replica
+
+namespace Replica
+
+/-- **What "valid" means (C03)**: in the replica's document, both signatures verify over exactly
+the entry's content, at most ten minutes ahead of the local clock, and a proper deletion marker or
+a proper non-empty record. -/
+def Valid (now : Nat) (ns : Bytes) (e : Entry) : Prop :=
+  e.ns = ns ∧ e.nsSigOk = true ∧ e.authorSigOk = true ∧ e.ts ≤ now + maxFutureShift ∧
+  ((e.hash = Entry.emptyHash ∧ e.len = 0) ∨ (e.hash ≠ Entry.emptyHash ∧ e.len ≠ 0))
+
+instance (now : Nat) (ns : Bytes) (e : Entry) : Decidable (Valid now ns e) := by
+  unfold Valid; exact inferInstance
+
+end Replica
